@@ -37,6 +37,7 @@ type World struct {
 	Externs   *ExternSpecs
 	Guarded   []GuardDecl
 	// no statement outside package analysis assigns to a field or element of a type declared in package analysis
+	PureMethods map[string]bool // "<pkgpath>.<Interface>.<Method>": interface methods whose implementations are all pure
 	AnalysisImmutable bool
 	ImmutabilityNotes []string
 }
@@ -154,6 +155,12 @@ func loadWorld() (*World, error) {
 		}
 		for _, l := range strings.Split(string(data), "\n") {
 			l = strings.TrimSpace(l)
+			if strings.HasPrefix(l, "//@ puremethod ") {
+				if w.PureMethods == nil {
+					w.PureMethods = map[string]bool{}
+				}
+				w.PureMethods[path+"."+strings.TrimSpace(strings.TrimPrefix(l, "//@ puremethod "))] = true
+			}
 			if strings.HasPrefix(l, "//@ guarded ") {
 				// //@ guarded Formatters.hasGoFmt by lock
 				fs := strings.Fields(strings.TrimPrefix(l, "//@ guarded "))
